@@ -274,6 +274,11 @@ func nativeReplay(files []*harnessFile, pkg string, entries []string, cases []re
 }
 
 func main() {
+	// a background sweep runs from a snapshot of /verif (vp run): harnesses, evidence and
+	// replay files are then read from / written to that snapshot; /repo is always the tree checked
+	if d := os.Getenv("VCHECK_VERIF_DIR"); d != "" {
+		verifDir = d
+	}
 	tier := flag.String("tier", "", "quick or thorough")
 	only := flag.String("only", "", "run only harnesses whose name contains this")
 	workers := flag.Int("workers", 16, "parallel workers")
